@@ -411,3 +411,180 @@ pub fn run(toks: Vec<Tok>) -> Vec<Tok> {
         vec![vec![st[0], st[1], st[2], st[3], replies], live, after, vec![health, names_mask(&after_text), other, waited]]
     })
 }
+
+/// A client that is gone while its tunnel's destination stays: the tunnel's outbound connection has to go with it.
+/// in : [proto 1|2|3, how the client goes: 0 = its TCP connection is reset (SO_LINGER 0) | 1 = its connection is closed without a word
+///       (TCP FIN, no TLS closure alert, no END_STREAM; HTTP/3: CONNECTION_CLOSE) | 2 = (HTTP/3) RESET_STREAM on the request stream, the connection stays]
+///      The destination reads, never writes, and does not close when its peer does.
+/// out: [996] | [status, what the destination saw within the wait (0 nothing | 1 end of stream | 2 error), ms until the gauges said so (at most 8000)]
+///              [sessions 1 2 3, tcp sockets, udp sockets, inbound 1 2 3, outbound 1 2 3] read from /metrics at that moment
+pub fn gone(toks: Vec<Tok>) -> Vec<Tok> {
+    let f = toks[0].clone();
+    let rt = tokio::runtime::Builder::new_multi_thread().worker_threads(3).enable_all().build().unwrap();
+    rt.block_on(async move {
+        let (proto, how) = (f[0], f[1]);
+        let l = TcpListener::bind("127.0.0.1:0").await.unwrap();
+        let canary = l.local_addr().unwrap();
+        let seen = std::sync::Arc::new(std::sync::atomic::AtomicUsize::new(0));
+        let got = std::sync::Arc::new(std::sync::atomic::AtomicUsize::new(0));
+        {
+            let (seen, got) = (seen.clone(), got.clone());
+            tokio::spawn(async move {
+                loop {
+                    if let Ok((mut s, _)) = l.accept().await {
+                        let (seen, got) = (seen.clone(), got.clone());
+                        tokio::spawn(async move {
+                            let mut buf = [0u8; 1024];
+                            loop {
+                                match s.read(&mut buf).await {
+                                    Ok(0) => {
+                                        seen.store(1, std::sync::atomic::Ordering::SeqCst);
+                                        break;
+                                    }
+                                    Ok(n) => {
+                                        got.fetch_add(n, std::sync::atomic::Ordering::SeqCst);
+                                    }
+                                    Err(_) => {
+                                        seen.store(2, std::sync::atomic::Ordering::SeqCst);
+                                        break;
+                                    }
+                                }
+                            }
+                            // a peer that does not close because its client did
+                            tokio::time::sleep(Duration::from_secs(60)).await;
+                            drop(s);
+                        });
+                    }
+                }
+            });
+        }
+        let maddr = {
+            let Ok(t) = std::net::TcpListener::bind("127.0.0.1:0") else { return vec![vec![996]] };
+            t.local_addr().unwrap()
+        };
+        let make = move |addr: SocketAddr| {
+            Settings::builder()
+                .listen_address(addr)
+                .unwrap()
+                .listen_protocols(ListenProtocolSettings {
+                    http1: Some(Http1Settings::builder().build()),
+                    http2: Some(Http2Settings::builder().build()),
+                    quic: if proto == 3 { Some(QuicSettings::builder().build()) } else { None },
+                })
+                .allow_private_network_connections(true)
+                .metrics(MetricsSettings::builder().listen_address(maddr).unwrap().build().unwrap())
+                .build()
+                .unwrap()
+        };
+        let Some(ep) = crate::front::start(make, crate::ctxutil::basic_hosts, None).await else {
+            return vec![vec![996]];
+        };
+        // the ten bytes of the client have reached the destination: the tunnel is up and quiet
+        let delivered = |got: std::sync::Arc<std::sync::atomic::AtomicUsize>| async move {
+            for _ in 0..250 {
+                if got.load(std::sync::atomic::Ordering::SeqCst) >= 10 {
+                    break;
+                }
+                tokio::time::sleep(Duration::from_millis(20)).await;
+            }
+            tokio::time::sleep(Duration::from_millis(200)).await;
+        };
+        let mut status = 0u128;
+        let mut h3_kept = None;
+        if proto == 1 {
+            let Some(mut s) = crate::front::tls_connect(ep.addr, "localhost", &[b"http/1.1"]).await else { return vec![vec![996]] };
+            let _ = s.write_all(format!("CONNECT {} HTTP/1.1\r\nHost: x\r\n\r\n", canary).as_bytes()).await;
+            let mut acc = vec![];
+            let mut buf = [0u8; 16384];
+            while !acc.windows(4).any(|w| w == b"\r\n\r\n") {
+                match tokio::time::timeout(Duration::from_secs(5), s.read(&mut buf)).await {
+                    Ok(Ok(n)) if n > 0 => acc.extend_from_slice(&buf[..n]),
+                    _ => break,
+                }
+            }
+            status = String::from_utf8_lossy(&acc).split(' ').nth(1).and_then(|x| x.parse().ok()).unwrap_or(0);
+            let _ = s.write_all(b"0123456789").await;
+            let _ = s.flush().await;
+            delivered(got.clone()).await;
+            if how == 0 {
+                let _ = s.get_ref().0.set_linger(Some(Duration::from_secs(0)));
+            }
+            drop(s);
+        } else if proto == 2 {
+            let Some(s) = crate::front::tls_connect(ep.addr, "localhost", &[b"h2"]).await else { return vec![vec![996]] };
+            if how == 0 {
+                let _ = s.get_ref().0.set_linger(Some(Duration::from_secs(0)));
+            }
+            let Ok(Ok((send, conn))) = tokio::time::timeout(Duration::from_secs(5), h2::client::handshake(s)).await else { return vec![vec![996]] };
+            let driver = tokio::spawn(async move {
+                let _ = conn.await;
+            });
+            let req = http::Request::builder().method("CONNECT").uri(canary.to_string().as_str()).body(()).unwrap();
+            let mut keep = None;
+            if let Ok(Ok(mut sr)) = tokio::time::timeout(Duration::from_secs(5), send.clone().ready()).await {
+                if let Ok((resp, mut stream)) = sr.send_request(req, false) {
+                    if let Ok(Ok(resp)) = tokio::time::timeout(Duration::from_secs(5), resp).await {
+                        status = resp.status().as_u16() as u128;
+                        let _ = stream.send_data(bytes::Bytes::from_static(b"0123456789"), false);
+                        keep = Some((stream, resp));
+                    }
+                }
+            }
+            delivered(got.clone()).await;
+            // the connection task owns the socket: aborting it closes the socket (RST with linger 0, a bare FIN otherwise)
+            driver.abort();
+            let _ = driver.await;
+            drop(keep);
+            drop(send);
+        } else {
+            let Some(mut c) = crate::front::H3Client::connect(ep.addr, "localhost").await else { return vec![vec![996]] };
+            let hs = vec![(b":method".to_vec(), b"CONNECT".to_vec()), (b":authority".to_vec(), canary.to_string().into_bytes()), (b"user-agent".to_vec(), b"verif".to_vec())];
+            let mut sid = None;
+            if let Some(id) = c.request(&hs, false) {
+                c.drive(Duration::from_secs(5), |x| x.streams[&id].headers.is_some() || x.is_shut()).await;
+                status = c.streams[&id].status() as u128;
+                c.send_body(id, b"0123456789", false).await;
+                for _ in 0..250 {
+                    if got.load(std::sync::atomic::Ordering::SeqCst) >= 10 {
+                        break;
+                    }
+                    c.drive(Duration::from_millis(20), |_| false).await;
+                }
+                c.drive(Duration::from_millis(200), |_| false).await;
+                sid = Some(id);
+            }
+            if how == 2 {
+                if let Some(id) = sid {
+                    c.reset_stream(id, 0x10c);
+                }
+                h3_kept = Some(c);
+            } else {
+                c.close();
+                c.drive(Duration::from_millis(100), |_| false).await;
+                drop(c);
+            }
+        }
+        // what has to be left: nothing, except the HTTP/3 session whose stream alone was reset
+        let want: Vec<u128> = vec![0, 0, if h3_kept.is_some() { 1 } else { 0 }, 0, 0];
+        let mut text = String::new();
+        let mut waited = 0u128;
+        for _ in 0..80 {
+            match h3_kept.as_mut() {
+                Some(c) => c.drive(Duration::from_millis(100), |_| false).await,
+                None => tokio::time::sleep(Duration::from_millis(100)).await,
+            }
+            waited += 100;
+            text = http_get(maddr, "/metrics").await.1;
+            if snapshot(&text)[..5] == want[..] {
+                break;
+            }
+        }
+        if let Some(mut c) = h3_kept {
+            c.close();
+        }
+        if text.is_empty() {
+            return vec![vec![996]];
+        }
+        vec![vec![status, seen.load(std::sync::atomic::Ordering::SeqCst) as u128, waited], snapshot(&text)]
+    })
+}
